@@ -209,7 +209,7 @@ Definition pac_process (data key : bytes) (dec : list Z) : res pstate :=
 
 (* value field of a signature buffer at `off` of declared size `size`: [off+4, off+4+c) *)
 Definition in_bounds (data : bytes) (b : info_buffer) : bool :=
-  negb ((zlen data <? ib_off b) || (zlen data - ib_off b <? ib_size b)).
+  (0 <=? ib_off b) && (0 <=? ib_size b) && (ib_off b + ib_size b <=? zlen data).
 
 Definition zero_field (p : bytes) : option bytes :=
   match read_le 4 p with
